@@ -463,6 +463,9 @@ func (m *model) evalInc(n Node, cx mctx) ([]*hx.N, error) {
 	if cx.inSupply {
 		m.st.add("include-inside-supplied-content")
 	}
+	if cx.compLoop {
+		m.st.add("nested-include-in-component-loop")
+	}
 	if cx.pageLoop {
 		m.st.add("instance-in-includer-loop")
 	}
